@@ -535,6 +535,7 @@ func (f *File) Write(b []byte) (int, error) {
 	}
 	f.n.data = append(f.n.data[:f.off], append(append([]byte{}, b[:k]...), tail(f.n.data, f.off+k)...)...)
 	f.off += k
+	f.n.mt = f.w.Epoch + int64(f.w.IOSeq)
 	ev.N = k
 	ev.Data = append(Bytes{}, f.n.data...)
 	ev.Digest = digest(f.n.data)
